@@ -17,7 +17,8 @@ import (
 //
 // Correspondence streams (model ops): `quote` (syntax.Quote), `dec` (utf8.DecodeRuneInString),
 // `isprint-table` (unicode.IsPrint, every code point), `fmt` (expand.Format with nil args = the
-// $'…' escapes), `lex` (Parser.Words on the four word shapes), `unq` (expand.Literal of those words).
+// $'…' escapes), `lex` (Parser.Words on the four word shapes), `unq` (expand.Literal of those words),
+// `cmd` (Parser.Parse of one word as a whole program: simple command / assignment / clause).
 // Specification stream: `specrt` (the property itself, decided by the Lean spec).
 // Search leg (independent of Lean): a Go oracle for "the variant cannot represent s", the real
 // parser + expand.Literal round trip (also in argument position), and `printf %s <quoted>` in
@@ -409,27 +410,23 @@ func (st *c13State) one(s string, lang syntax.LangVariant, src string) {
 		return
 	}
 	if ok {
+		// the parser-side ops carry the variant as syntax.Variant resolves it (0 means Bash)
+		if plang == 0 {
+			plang = syntax.LangBash
+		}
+		pl := strconv.FormatInt(int64(plang), 10)
 		lex, unq := c13Lex(plang, q)
-		c.Op("lex "+l+" "+hx(q), lex)
-		c.Op("unq "+l+" "+hx(q), unq)
+		c.Op("lex "+pl+" "+hx(q), lex)
+		c.Op("unq "+pl+" "+hx(q), unq)
+		c.Op("cmd "+pl+" "+hx(q), c13CmdClass(plang, q))
 	}
 	// The property itself, for every variant Variant accepts (incl. the legacy zero value, which
 	// Quote maps to LangBash since fix 9caaaf3; witness in corpus/C13-fixed.txt).
 	st.spec(s, lang, false, src)
 }
 
-// c13KnownElif: open finding C13-elif-not-keyword — IsKeyword lacks "elif", so Quote returns it
-// bare and the result is a syntax error in command position (our parser, bash, dash).  The
-// generators never produce it and the spec/search leg skips it; corpus/C13-known.txt replays the
-// witness through c.Fail.
-const c13KnownElif = "elif"
-
 func (st *c13State) spec(s string, lang syntax.LangVariant, known bool, src string) {
 	c := st.c
-	if s == c13KnownElif && !known {
-		c.Hist["excluded-elif"]++
-		return
-	}
 	l := strconv.FormatInt(int64(lang), 10)
 	rt := c13RoundTrip(s, lang)
 	wit := "specrt " + l + " " + hx(s)
@@ -570,7 +567,7 @@ func (st *c13State) runShells() {
 
 var c13Meta = []string{";", "\"", "'", "(", ")", "$", "|", "&", ">", "<", "`", " ", "\\", "#", "{", "}", "~", "*", "?", "[", "]", "=", "!", "-", "%", "^", ",", ":", "@", "+", "/", "."}
 var c13Letters = []string{"a", "b", "f", "0", "1", "9", "A", "F", "g", "z", "_", "x", "u", "U", "n"}
-var c13Keywords = []string{"!", "[[", "]]", "case", "coproc", "do", "done", "else", "esac", "fi", "for", "function", "if", "in", "select", "then", "time", "until", "while", "{", "}", "let", "declare", "If", "fin"}
+var c13Keywords = []string{"!", "[[", "]]", "case", "coproc", "do", "done", "elif", "else", "esac", "fi", "for", "function", "if", "in", "select", "then", "time", "until", "while", "{", "}", "let", "declare", "If", "fin"}
 var c13Ctl = []string{"\a", "\b", "\f", "\n", "\r", "\t", "\v", "\x01", "\x1b", "\x1c", "\x7f", "\x1f"}
 var c13PrintMB = []string{"é", "ß", "世", "界", "😀", "Ω", "ж", "¡", "ÿ", "\U00020000", "\uffe0", "\ufffc"}
 var c13NonPrintMB = []string{"\u00a0", "\u00ad", "\u0080", "\u009f", "\u200b", "\u2028", "\ue000", "\ufffe", "\uffff", "\ufffd", "\U000e0001", "\U0010ffff", "\U00010000", "\U000f0000", "\ufeff", "\u0378", "\u3000", "\u0085"}
@@ -608,7 +605,7 @@ func c13Gen(r *Rand, maxLen int) (string, string) {
 		case 5:
 			s = nm + "[" + r.Pick(idx) + "]+=" + vl
 		case 6:
-			s = r.Pick([]string{"if", "{", "!", "[[", "function", "time", "coproc", "select", "then", "else", "fi", "do", "done", "esac", "case", "for", "while", "until", "in", "}", "]]"})
+			s = r.Pick([]string{"if", "{", "!", "[[", "function", "time", "coproc", "select", "then", "elif", "else", "fi", "do", "done", "esac", "case", "for", "while", "until", "in", "}", "]]"})
 			if r.Chance(30) {
 				s += r.Pick([]string{"x", "+=1", "=1", " a", "}"})
 			}
@@ -767,6 +764,78 @@ func (st *c13State) lexOp(lang syntax.LangVariant, q string) {
 	st.c.Hist["lexstream="+strings.Fields(lex)[0]]++
 }
 
+// c13CmdClass canonicalises Parser.Parse(q) for the `cmd` correspondence stream: "simple <word>"
+// (one statement, a CallExpr with no assignment and one literal/quoted word), "assign" (one
+// assignment, no word), "notsimple" (parse error, clause, block), "outside" (anything else).
+func c13CmdClass(lang syntax.LangVariant, q string) string {
+	res := "outside"
+	p := safely(func() {
+		f, err := syntax.NewParser(syntax.Variant(lang)).Parse(strings.NewReader(q), "")
+		if err != nil {
+			res = "notsimple"
+			return
+		}
+		if len(f.Stmts) != 1 {
+			return
+		}
+		st := f.Stmts[0]
+		ce, isCall := st.Cmd.(*syntax.CallExpr)
+		if !isCall {
+			res = "notsimple"
+			return
+		}
+		if len(st.Redirs) != 0 || st.Background || st.Negated || st.Coprocess {
+			return
+		}
+		switch {
+		case len(ce.Assigns) == 1 && len(ce.Args) == 0:
+			a := ce.Assigns[0]
+			if a.Index == nil && a.Array == nil && !a.Naked {
+				res = "assign"
+			}
+		case len(ce.Assigns) == 0 && len(ce.Args) == 1:
+			if w, ok := c13ShowWord(ce.Args[0]); ok {
+				res = "simple " + w
+			}
+		}
+	})
+	if p != "" {
+		return "notsimple"
+	}
+	return res
+}
+
+// c13GenCmdText: one word inside the lexer fragment, biased to what is syntax in first position.
+func c13GenCmdText(r *Rand) string {
+	words := []string{"!", "]]", "case", "coproc", "do", "done", "elif", "else", "esac", "fi", "for", "function", "if", "in", "select", "then", "time", "until", "while", "{", "}", "elif",
+		"let", "declare", "local", "export", "readonly", "typeset", "nameref", "@test", "{}", "eval", "a", "If", "ifx", "}}", "]]]"}
+	safe := []string{"a", "b", "Z", "_", "1", "9", "+", "=", "@", "{", "}", "!", "]", "-", ".", ":", ",", "%", "^", "/", "é"}
+	names := []string{"a", "n", "PATH", "_x1", "A_b", "x9", "if", "_", "1a", "a-b", "é", ""}
+	var s string
+	switch r.Intn(6) {
+	case 0, 1:
+		s = r.Pick(words)
+	case 2, 3:
+		s = r.Pick(names) + r.Pick([]string{"=", "+=", "+", "==", "+=+=", "-="}) + genFrom(r, safe, 3)
+	default:
+		s = genFrom(r, safe, 5)
+		if s == "" {
+			s = "a"
+		}
+	}
+	if r.Chance(15) {
+		s += r.Pick([]string{"'x'", "\"y\"", "''", "'='b"})
+	}
+	if r.Chance(5) {
+		s = r.Pick([]string{"'a'", "\"a\""}) + s
+	}
+	return s
+}
+
+func (st *c13State) cmdOp(lang syntax.LangVariant, q string) {
+	st.c.Op("cmd "+strconv.Itoa(int(lang))+" "+hx(q), c13CmdClass(lang, q))
+}
+
 func (st *c13State) fmtOp(s string) {
 	var out string
 	p := safely(func() {
@@ -807,11 +876,13 @@ func c13(c *Ctx) {
 		case len(f) == 3 && f[0] == "specrt":
 			n, _ := strconv.ParseInt(f[1], 10, 64)
 			wl, ws := syntax.LangVariant(n), unhx(f[2])
-			// lines of corpus/C13-known.txt are open findings: c.Fail only
-			st.spec(ws, wl, ws == c13KnownElif, "corpus")
+			st.spec(ws, wl, false, "corpus")
 		case len(f) == 3 && f[0] == "quote":
 			n, _ := strconv.ParseInt(f[1], 10, 64)
 			st.one(unhx(f[2]), syntax.LangVariant(n), "corpus")
+		case len(f) == 3 && f[0] == "cmd":
+			n, _ := strconv.ParseInt(f[1], 10, 64)
+			st.cmdOp(syntax.LangVariant(n), unhx(f[2]))
 		case len(f) == 3 && f[0] == "lex":
 			n, _ := strconv.ParseInt(f[1], 10, 64)
 			st.lexOp(syntax.LangVariant(n), unhx(f[2]))
@@ -888,6 +959,9 @@ func c13(c *Ctx) {
 		}
 		if i%3 == 0 {
 			st.fmtOp(c13GenFmt(r))
+		}
+		if i%2 == 1 {
+			st.cmdOp(valid[r.Intn(len(valid))], c13GenCmdText(r))
 		}
 		if i%3 == 1 {
 			st.decOp(c13GenDec(r))
